@@ -158,5 +158,17 @@ def boundary_points():
         pts += on_curve_from(2 ** 255, 1, 2)
         pts += on_curve_from(2 ** 200, 1, 2)           # leading zero bytes
         pts += on_curve_from((P + N) // 2, 1, 2)       # middle of [n, p)
+        # boundaries of the OTHER coordinate: points with tiny |y| (y = ±1, ±2, …).  There x^3 + 7 = y^2 is tiny, i.e.
+        # x^3 mod p lies just below p and the sum x^3 + 7 wraps around the modulus.  p = 7 (mod 9), so a cubic residue
+        # c has the cube root c^((p+2)/9); the other two differ by a primitive cube root of unity.
+        w = next(pow(g, (P - 1) // 3, P) for g in range(2, 50) if pow(g, (P - 1) // 3, P) != 1)
+        for y in (1, 2, 3, 4, 5, 6, 7, 8):
+            c = (y * y - 7) % P
+            if c and pow(c, (P - 1) // 3, P) == 1:
+                x0 = pow(c, (P + 2) // 9, P)
+                for x in (x0, x0 * w % P, x0 * w * w % P):
+                    if (pow(x, 3, P) + 7 - y * y) % P == 0:
+                        for yy in (y, P - y):
+                            pts.append(bytes([2 + (yy & 1)]) + x.to_bytes(32, "big"))
         _bpts[0] = pts
     return _bpts[0]
